@@ -5,18 +5,9 @@
      search <ops> ; <aexp tokens> ; ws|nows ; <calls>/…        getkey <ops> ; <value>*
    ops: i:<hexkey>:<val> | a:<hexkey>, comma separated, "_" = none. *)
 
-(* native CRC-32C stand-in for the footer (the verified model of the checksum is coq/Crc.v, C08) *)
-let crc_table = Array.init 256 (fun i ->
-  let c = ref i in
-  for _ = 0 to 7 do
-    if !c land 1 = 1 then c := (!c lsr 1) lxor 0x82f63b78 else c := !c lsr 1
-  done; !c)
-let summer (bs : n list) : n =
-  let crc = ref 0xFFFFFFFF in
-  List.iter (fun b -> let b = int_of_n b in crc := crc_table.((!crc lxor b) land 0xff) lxor (!crc lsr 8)) bs;
-  let sum = (!crc lxor 0xFFFFFFFF) land 0xFFFFFFFF in
-  let rot = ((sum lsr 15) lor (sum lsl 17)) land 0xFFFFFFFF in
-  n_of_int ((rot + 0xA282EAD8) land 0xFFFFFFFF)
+(* footer checksum: the extracted model of src/raw/crc32.rs (coq/Crc.v, proved equal to the bitwise
+   CRC-32C specification in C08) *)
+let summer (bs : n list) : n = model_masked_crc32c bs
 
 let parse_ops (s : string) : op list =
   if s = "_" || s = "" then [] else
@@ -129,9 +120,10 @@ let handle (line : string) : string =
        let ps = List.filter (fun x -> x <> "") (split_on ' ' (trim probes)) in
        let s = List.map (fun p -> let k = bytes_of_hex p in
                           match lookup content k with Some v -> string_of_n v ^ "/1" | None -> "~/0") ps in
+       let (na, root) = view_of bs in
        let m = List.map (fun p -> let k = bytes_of_hex p in
-                          (match api_get bs k with Ok (Some v) -> string_of_n v | Ok None -> "~" | _ -> "PANIC") ^ "/" ^
-                          (match api_contains bs k with Ok true -> "1" | Ok false -> "0" | _ -> "PANIC")) ps in
+                          (match fst_get na root k with Ok (Some v) -> string_of_n v | Ok None -> "~" | _ -> "PANIC") ^ "/" ^
+                          (match fst_contains na root k with Ok true -> "1" | Ok false -> "0" | _ -> "PANIC")) ps in
        "S:" ^ String.concat "," s ^ "\tM:" ^ String.concat "," m
      | _ -> "BADCASE")
   | "range" ->
@@ -142,7 +134,8 @@ let handle (line : string) : string =
        let bs = build_bytes ops in
        let rs = List.map (fun r -> parse_calls (trim r)) (split_on '/' (trim ranges)) in
        let s = List.map (fun cs -> str_kvs (spec_range content cs)) rs in
-       let m = List.map (fun cs -> match api_range bs cs with Ok l -> str_kvs l | _ -> "PANIC") rs in
+       let (na, root) = view_of bs in
+       let m = List.map (fun cs -> match range na root cs with Ok l -> str_kvs l | _ -> "PANIC") rs in
        "S:" ^ String.concat "/" s ^ "\tM:" ^ String.concat "/" m
      | _ -> "BADCASE")
   | "search" ->
@@ -158,7 +151,8 @@ let handle (line : string) : string =
        let str_items l = if l = [] then "_" else String.concat "," (List.map (fun ((k, v), st) ->
            hex_of_bytes k ^ ":" ^ string_of_n v ^ (if ws then ":" ^ str_state exp st else "")) l) in
        let s = List.map (fun cs -> str_items (spec_search content a cs)) rs in
-       let m = List.map (fun cs -> match api_search_with_state bs a cs with Ok l -> str_items l | _ -> "PANIC") rs in
+       let (na, root) = view_of bs in
+       let m = List.map (fun cs -> match search_with_state na root a cs with Ok l -> str_items l | _ -> "PANIC") rs in
        "S:" ^ String.concat "/" s ^ "\tM:" ^ String.concat "/" m
      | _ -> "BADCASE")
   | "getkey" ->
@@ -169,7 +163,8 @@ let handle (line : string) : string =
        let bs = build_bytes ops in
        let vs = List.filter (fun x -> x <> "") (split_on ' ' (trim vals)) in
        let s = List.map (fun v -> match spec_get_key content (n_of_string v) with Some k -> hex_of_bytes k | None -> "~") vs in
-       let m = List.map (fun v -> match api_get_key bs (n_of_string v) with Ok (Some k) -> hex_of_bytes k | Ok None -> "~" | _ -> "PANIC") vs in
+       let (na, root) = view_of bs in
+       let m = List.map (fun v -> match get_key na root (n_of_string v) with Ok (Some k) -> hex_of_bytes k | Ok None -> "~" | _ -> "PANIC") vs in
        "S:" ^ String.concat "," s ^ "\tM:" ^ String.concat "," m
      | _ -> "BADCASE")
   | "fmt" ->
